@@ -28,9 +28,9 @@ type witnessFile struct {
 	// for harnesses that only run in the engine (crash model, stubs): the decision
 	// prefix that re-executes the counterexample path
 	SchedOps     json.RawMessage `json:"sched_ops,omitempty"`
-	Ops          []opRec      `json:"ops,omitempty"`
-	EngineOnly   bool         `json:"engine_only,omitempty"`
-	EnginePrefix []prefixStep `json:"engine_prefix,omitempty"`
+	Ops          []opRec         `json:"ops,omitempty"`
+	EngineOnly   bool            `json:"engine_only,omitempty"`
+	EnginePrefix []prefixStep    `json:"engine_prefix,omitempty"`
 }
 
 type prefixStep struct {
@@ -51,12 +51,12 @@ type nativeOut struct {
 		Name string `json:"name"`
 		Val  string `json:"val"`
 	} `json:"observes"`
-	Reached    []string `json:"reached"`
-	AssumeFail string   `json:"assume_fail,omitempty"`
-	Panic      string   `json:"panic,omitempty"`
-	Missing    []string `json:"missing_vars,omitempty"`
-	SchedReport string  `json:"sched_report,omitempty"`
-	Sequenced  bool     `json:"sequenced,omitempty"`
+	Reached     []string `json:"reached"`
+	AssumeFail  string   `json:"assume_fail,omitempty"`
+	Panic       string   `json:"panic,omitempty"`
+	Missing     []string `json:"missing_vars,omitempty"`
+	SchedReport string   `json:"sched_report,omitempty"`
+	Sequenced   bool     `json:"sequenced,omitempty"`
 }
 
 type replayJob struct {
